@@ -166,6 +166,10 @@ class Ctx:
 
     def engine(self, label, prop, **kw):
         eng = Engine(label=label, prop=prop, exc_parents=self.exc_parents(), **kw)
+        # A-DIGITS: \d of a str pattern and int() accept every code point of category Nd (64 ranges of ten in the interpreter that runs
+        # the library); the solver is given ASCII digits plus ONE other script as the representative of all non-ASCII digits
+        # (no pattern, class or built-in used here tells two digit scripts apart) - the full union makes every string query ~10x slower
+        eng.unicode_nd = ((Ctx._consts or {}).get("__unicode_nd__") or [[48, 57]])[:2]
         for k, v in getattr(self, "_exc_second", {}).items():
             eng.classes.setdefault(k, ())
             eng.classes[k] = tuple(eng.classes[k]) + (v,)
